@@ -1025,9 +1025,9 @@ def mc_optmath(ctx):
     return run_mc(ctx, "MCOptMath", "MCOptMath_quick.cfg" if ctx.quick() else "MCOptMath_thorough.cfg", workers=12, timeout=3000, heap="8g", coverage=False)
 
 
-def mcoptobj_cfg(maxops, emit, broken="none", ids="{1, 2}"):
-    return ("SPECIFICATION Spec\nCONSTANTS\n  Ids = %s\n  Maps = {1}\n  MaxOps = %d\n  Emit = %s\n  Broken = \"%s\"\nINVARIANT Inv\nCONSTRAINT EmitScripts\n"
-            "VIEW View\nCHECK_DEADLOCK FALSE\n" % (ids, maxops, "TRUE" if emit else "FALSE", broken))
+def mcoptobj_cfg(maxops, emit, broken="none", ids="{1, 2}", maps="{1}"):
+    return ("SPECIFICATION Spec\nCONSTANTS\n  Ids = %s\n  Maps = %s\n  MaxOps = %d\n  Emit = %s\n  Broken = \"%s\"\nINVARIANT Inv\nCONSTRAINT EmitScripts\n"
+            "VIEW View\nCHECK_DEADLOCK FALSE\n" % (ids, maps, maxops, "TRUE" if emit else "FALSE", broken))
 
 
 def mc_optobj(ctx):
@@ -1221,21 +1221,42 @@ def opt_eval_cmd(r, oid, st, sm, tm, ws):
     return {"op": "evaluate", "obj": oid, "x": gen.hv(x), "ws": ws, "costs": gen.cost_params(gen.Rng(5)), "overload": 3}
 
 
-def opt_history_execs(ctx, r, nsample, families, exact=True, maxops=3, ids="{1, 2}"):
+def opt_history_execs(ctx, r, nsample, families, exact=True, maxops=3, ids="{1, 2}", maps="{1}"):
     from vcheck import tlc_generate
-    scripts = tlc_generate(ctx, "MCOptObj", mcoptobj_cfg(maxops, True, ids=ids), "optobj" + ids.replace(" ", "").replace(",", "_").strip("{}"), workers=1, timeout=900)
+    scripts = tlc_generate(ctx, "MCOptObj", mcoptobj_cfg(maxops, True, ids=ids, maps=maps),
+                           "optobj" + ids.replace(" ", "").replace(",", "_").strip("{}") + "m" + str(len(maps)) + "d" + str(maxops), workers=1, timeout=900, heap="8g")
     READERS = ("get_dim", "init_guess", "evaluate")
     SETTERS = ("set_flags", "set_smap", "set_init", "opt_assign")
 
     def stale_risk(h):
-        """a setter that changes the layout AFTER a reader has built the cache: the histories a lazily rebuilt cache is exposed to"""
-        seen_reader = False
+        """signature of the way a history exposes hidden cache state, or "" if it does not:
+        a setter that changes the layout AFTER a reader has built the cache, or a copy/assignment between two optimizers whose
+        caches are in different states (one read since its last setter, the other not)"""
+        clean, usable = {}, {}      # obj -> cache built since the last setter? / holds a valid problem?
+        sig = ""
         for a in h:
+            o = a.get("obj")
+            if a["op"] == "set_init":
+                usable[o] = a["v"] in (1, 2)
+            elif a["op"] == "set_init_empty":
+                usable[o] = False
             if a["op"] in READERS:
-                seen_reader = True
-            elif a["op"] in SETTERS and seen_reader:
-                return True
-        return False
+                if usable.get(o, False):
+                    clean[o] = True
+            elif a["op"] in SETTERS and a["op"] != "opt_assign":
+                if clean.get(o, False) and (a["op"] != "set_init" or usable.get(o, False)):
+                    sig = sig or "%s-after-reader" % a["op"]
+                clean[o] = False
+            elif a["op"] in ("opt_assign", "opt_copy"):
+                d, sr = a["dst"], a["src"]
+                if d != sr and usable.get(sr, False) and clean.get(d, False) != clean.get(sr, False):
+                    sig = sig or "%s:dst-%s:src-%s" % (a["op"], "clean" if clean.get(d, False) else "dirty", "clean" if clean.get(sr, False) else "dirty")
+                clean[d] = clean.get(sr, False)
+                usable[d] = usable.get(sr, False)
+            elif a["op"] == "opt_destroy":
+                clean.pop(o, None)
+                usable.pop(o, None)
+        return sig
     groups = {}
     for h in scripts:
         last = h[-1]
@@ -1287,7 +1308,10 @@ def plan_C15(ctx):
     mc_optobj(ctx)
     r = gen.Rng(ctx.seed * 1000003 + 15)
     # stateful map families: a dangling pointer into a destroyed (poisoned) optimizer reads garbage deterministically
-    hexecs = opt_history_execs(ctx, r, 400 if ctx.quick() else 12000, (("sq", "lift"), ("sq", "id"), ("quad", "lift"), ("sq", "lift")), maxops=4 if not ctx.quick() else 3)
+    fams = (("sq", "lift"), ("sq", "id"), ("quad", "lift"), ("sq", "lift"))
+    hexecs = opt_history_execs(ctx, r, 400 if ctx.quick() else 12000, fams, maxops=4 if not ctx.quick() else 3)
+    # two optimizers, no user maps, up to 7 calls: long enough for "configure both, use one, assign the other onto it, use it"
+    hexecs += opt_history_execs(ctx, r, 1500 if ctx.quick() else 30000, fams, maxops=6, maps="{}")
     # spline-object copies
     tab = ProbTable(ctx.seed)
     sexecs = []
